@@ -221,6 +221,16 @@ func init() {
 		File: "reify.go", Old: "	tmp := reflect.Zero(t)\n	if tmp.OverflowInt(i) {", New: "	tmp := reflect.Zero(tInt64)\n	if tmp.OverflowInt(i) {", Expect: "R03c/ucfg.reifyInt"})
 	addControl(control{Prop: "C03", Name: "uint-overflow-test-dropped", Rule: "R03c", Kind: "mutant",
 		File: "reify.go", Old: "	tmp := reflect.Zero(t)\n	if tmp.OverflowUint(u) {\n		return reflect.Value{}, raiseConversion(opts.opts, val, ErrOverflow, \"uint\")\n	}\n", New: "", Expect: "R03c/ucfg.reifyUint"})
+	// helper extraction: the new function is inlined by the normalisation (normalize.go) before the rules run
+	addControl(control{Prop: "C03", Name: "duration-int-case-extracted", Rule: "R03b", Kind: "refactor", Quick: true,
+		File: "reify.go", Old: "		if v.i < -maxSeconds || maxSeconds < v.i {\n			err = ErrOverflow\n		} else {\n			d = time.Duration(v.i) * time.Second\n		}\n	case *cfgUint:",
+		New: "		d, err = intSecondsToDuration(v.i, maxSeconds)\n	case *cfgUint:",
+		More: []edit{{"reify.go", "func reifyDuration(", "func intSecondsToDuration(i, maxSeconds int64) (d time.Duration, err error) {\n	if i < -maxSeconds || maxSeconds < i {\n		err = ErrOverflow\n	} else {\n		d = time.Duration(i) * time.Second\n	}\n	return d, err\n}\n\nfunc reifyDuration("}}})
+	addControl(control{Prop: "C03", Name: "duration-int-case-extracted-unbounded", Rule: "R03b", Kind: "mutant",
+		File: "reify.go", Old: "		if v.i < -maxSeconds || maxSeconds < v.i {\n			err = ErrOverflow\n		} else {\n			d = time.Duration(v.i) * time.Second\n		}\n	case *cfgUint:",
+		New: "		d, err = intSecondsToDuration(v.i, maxSeconds)\n	case *cfgUint:",
+		More: []edit{{"reify.go", "func reifyDuration(", "func intSecondsToDuration(i, maxSeconds int64) (d time.Duration, err error) {\n	if maxSeconds < i {\n		err = ErrOverflow\n	} else {\n		d = time.Duration(i) * time.Second\n	}\n	return d, err\n}\n\nfunc reifyDuration("}},
+		Expect: "R03b/ucfg.reifyDuration"})
 	addControl(control{Prop: "C03", Name: "duration-bound-off-by-unit", Rule: "R03b", Kind: "mutant",
 		File: "reify.go", Old: "const maxSeconds = int64(math.MaxInt64 / time.Second)", New: "const maxSeconds = int64(math.MaxInt64 / time.Millisecond)", Expect: "R03b/ucfg.reifyDuration"})
 	addControl(control{Prop: "C03", Name: "convert-before-check", Rule: "R03a", Kind: "mutant",
@@ -557,4 +567,8 @@ func init() {
 		File: "path.go", Old: "	if i.i < 0 || int64(i.i) > opts.maxIdx {", New: "	if i.i < 0 {", Expect: "R07c/(ucfg.idxField).SetValue"})
 	addControl(control{Prop: "C07", Name: "setter-index-cap-as-two-tests", Rule: "R07c", Kind: "refactor",
 		File: "path.go", Old: "	if i.i < 0 || int64(i.i) > opts.maxIdx {\n		// the index given to a setter is capped like an index parsed from a\n		// key: the list would have to grow to i+1 entries\n		return raiseIndexOutOfBounds(opts, elem, i.i)\n	}", New: "	if i.i < 0 {\n		return raiseIndexOutOfBounds(opts, elem, i.i)\n	}\n	if limit := opts.maxIdx; int64(i.i) > limit {\n		return raiseIndexOutOfBounds(opts, elem, i.i)\n	}"})
+	addControl(control{Prop: "C05", Name: "key-kind-test-as-switch", Rule: "R05b", Kind: "refactor", Quick: true,
+		File: "merge.go", Old: "	if k != reflect.String && k != reflect.Interface {\n		return raiseKeyInvalidTypeMerge(cfg, from.Type())\n	}", New: "	switch k {\n	case reflect.String, reflect.Interface:\n	default:\n		return raiseKeyInvalidTypeMerge(cfg, from.Type())\n	}"})
+	addControl(control{Prop: "C05", Name: "key-kind-test-nested", Rule: "R05b", Kind: "refactor",
+		File: "merge.go", Old: "	if k != reflect.String && k != reflect.Interface {\n		return raiseKeyInvalidTypeMerge(cfg, from.Type())\n	}", New: "	if k != reflect.String {\n		if k != reflect.Interface {\n			return raiseKeyInvalidTypeMerge(cfg, from.Type())\n		}\n	}"})
 }
